@@ -1,4 +1,5 @@
 """C11: holes stay holes - sparse files are copied without materialising them."""
+from ..common import rmtree as _rmtree
 from .. import build, dataplane, dataprop
 from ..common import rng, ToolError
 
@@ -50,7 +51,7 @@ def two_filesystems(ctx, binary):
                                   {"kind": "c11-2fs", "obs": o}, sig={"scenario": "two-fs"})
         ctx.notes["two_filesystems"] = "%d runs (tmpfs source first, then sparse ext4 source)" % len(recs)
     finally:
-        shutil.rmtree(shm, ignore_errors=True); shutil.rmtree(root, ignore_errors=True)
+        _rmtree(shm); _rmtree(root)
 
 def run(ctx):
     binary = build.xcp()
